@@ -53,6 +53,17 @@ CHECKS['C20'] = dict(
          'corrupted input changes the output of the kernel (value-level).',
     design='§3 C20', note=TB)
 
+CHECKS['C18'] = dict(
+    technique='static analysis: abstract interpretation (entry-value / stack-offset / interval+stride domain, stack-slot tracking, callee summaries to fixpoint) over the exact CFG of every assembled object',
+    text='Decides at object level, for all 686 C-callable assembly functions of the Linux build and on every CFG path to each of their '
+         'exits (ret and tail jumps), that rsp and rbx, rbp, r12-r15 hold their entry values and the direction flag is clear; internal '
+         'helpers that deliberately clobber callee-saved registers are summarised and their callers must save for them; no instruction '
+         'in any object writes MXCSR or the x87 control word, and library C code has no inline asm or MXCSR intrinsic. The CFG is exact '
+         '(no indirect jump or call exists; the check fails as broken if one appears). C code obeys the ABI by construction of the compiler. '
+         'We would call this a proof were it not for the stated no-alias assumption (17 own-frame stores with an unbounded index are listed '
+         'in the evidence). Not covered: Windows ABI paths, avx2_t4 assembly (cannot be assembled by the installed nasm).',
+    design='§3 C18', note=TB_ASM)
+
 NOT_APPLICABLE = {
     'C07': 'bounds of SIMD loads/stores relative to run-time lengths need relational numeric invariants over ~850 '
            'hand-written assembly functions; no sound static argument in reach (no frama-c; CSA/cppcheck do not see NASM)',
